@@ -13,13 +13,13 @@ import (
 type Rel uint8
 
 const (
-	RLT Rel = 1
-	REQ Rel = 2
-	RGT Rel = 4
-	RLE     = RLT | REQ
-	RGE     = RGT | REQ
-	RNE     = RLT | RGT
-	RANY    = RLT | REQ | RGT
+	RLT  Rel = 1
+	REQ  Rel = 2
+	RGT  Rel = 4
+	RLE      = RLT | REQ
+	RGE      = RGT | REQ
+	RNE      = RLT | RGT
+	RANY     = RLT | REQ | RGT
 )
 
 func (r Rel) mirror() Rel {
